@@ -77,6 +77,21 @@ DIFFERENT += [
     ('helper inlined with its arguments swapped',
      'def f(self, a, b):\n    return self._h(a, b)',
      'def f(self, a, b):\n    return self._h(b, a)'),
+    ('chained comparison whose middle operand has side effects',
+     'def f(self, a, b):\n    return a <= self.next() <= b',
+     'def f(self, a, b):\n    return a <= self.next() and self.next() <= b'),
+    ('return of an assignment when the name is also read by a closure',
+     'def f(self):\n    x = 1\n    g = lambda: x\n    x = self.a()\n    return x',
+     'def f(self):\n    x = 1\n    g = lambda: x\n    return self.a()'),
+    ('tuple assignment to attributes where the second value reads the first target',
+     'def f(self, v):\n    self.a, self.b = v, self.a',
+     'def f(self, v):\n    self.a = v\n    self.b = self.a'),
+    ('chained comparison bound changed',
+     'def f(lo, v, hi):\n    return lo <= v <= hi',
+     'def f(lo, v, hi):\n    return lo <= v and v < hi'),
+    ('match test inverted',
+     'def f(s):\n    if RE_X.match(s) is None:\n        return 1\n    return 0',
+     'def f(s):\n    if RE_X.match(s):\n        return 1\n    return 0'),
 ]
 
 SAME = [
@@ -92,6 +107,11 @@ SAME = [
      'def f(self, out):\n    for i, e in enumerate(self.xs):\n        out[i] = e'),
     ('loop to comprehension', 'def f(xs):\n    out = []\n    for x in xs:\n        if x.ok:\n            out.append(x.v)\n    return out',
      'def f(xs):\n    return [x.v for x in xs if x.ok]'),
+    ('return placed after the if or in its branches', 'def f(self, c, b):\n    if c:\n        b = b[:-1]\n    return b',
+     'def f(self, c, b):\n    if not c:\n        return b\n    b = b[:-1]\n    return b'),
+    ('chained comparison', 'def f(lo, v, hi):\n    if v >= lo and v <= hi:\n        return 1\n    return 0', 'def f(lo, v, hi):\n    if lo <= v <= hi:\n        return 1\n    return 0'),
+    ('tuple assignment to attributes', 'def f(self, v):\n    self.a = 65\n    self.b = len(v)', 'def f(self, v):\n    self.a, self.b = 65, len(v)'),
+    ('match object is not None', 'def f(s):\n    if RE_X.match(s):\n        return 1\n    return 0', 'def f(s):\n    if RE_X.match(s) is not None:\n        return 1\n    return 0'),
 ]
 
 
